@@ -111,6 +111,15 @@ def respond (line : String) : String :=
        | .ok c' => Sexp.toString (l [a "ok", c'.toSexp])
        | .error e => Sexp.toString (errSexp e))
     | _, _ => "(bad-request aggregate)"
+  | some (.atom "latex" :: .atom showNonRoot :: r :: _) =>
+    -- entries of the rendering, as (section key) pairs, and the formatter chosen for every input parameter
+    match Routine.ofSexp r with
+    | some r =>
+      let es := latexEntries r (showNonRoot == "1")
+      Sexp.toString (l [a "ok", l (es.map fun e => l [a (e.sec.name.replace " " "_"), a e.key]),
+        l (r.inputParams.map fun p => l [a p, a (match formatterOf (((p.splitOn ".").getLast?).getD p).toList with
+          | .math => "math" | .mathSubscript => "mathSubscript" | .text => "text")])])
+    | none => "(bad-request latex)"
   | some (.atom "evaluate" :: c :: asg :: _) =>
     match CRoutine.ofSexp c, listOfSexp localOfSexp asg with
     | some c, some asg =>
